@@ -11,6 +11,8 @@ request (JSON on stdin):
           | ["load", theory, LIMIT]              earlier load; its outcome is recorded, the history goes on
           | ["load_bogus", theory, [ty, name]]   limit that names no item of the theory: must raise
           | ["metadata"]                         basic.load_metadata()
+          | ["extend", tag]                      extend the currently loaded theory object in place (theorem
+                                                 c12_ext_<tag>, an attribute, constant c12_extc_<tag>)
           | ["touch", theory]                    new mtime, same content                       (scratch root only)
           | ["insert", theory, pos, tag]         insert axiom c12_marker_<tag> before item pos   (scratch root only)
           | ["delete", theory, pos]              delete item number pos (mod length)             (scratch root only)
@@ -236,6 +238,18 @@ def run_history(req):
             ev = attempt(lambda: basic.load_theory(op[1], limit=to_limit(op[2])))
         elif kind == 'metadata':
             ev = attempt(lambda: basic.load_metadata())
+        elif kind == 'extend':
+            def ext(tag=op[1]):
+                # what app/ide.py does after load_theory: extend the loaded theory object in place
+                from kernel import extension
+                from kernel.thm import Thm
+                from kernel.term import Var, Eq
+                from kernel.type import TVar
+                x = Var('c12x', TVar('a'))
+                theory.thy.unchecked_extend([extension.Theorem('c12_ext_' + tag, Thm(Eq(x, x))),
+                                             extension.Attribute('c12_ext_' + tag, 'hint_rewrite'),
+                                             extension.Constant('c12_extc_' + tag, TVar('a'))])
+            ev = attempt(ext)
         elif kind == 'touch':
             files.touch(op[1])
             ev = {'status': 'done'}
